@@ -38,7 +38,7 @@ class Permanent:
         factor_n = prod([factorial(i) for i in out_state])
         # Calculate permanent for given input/output
         return perm(partition(unitary, in_state, out_state)) / (
-            np.sqrt(factor_m * factor_n)
+            np.sqrt(float(factor_m * factor_n))
         )
 
 
